@@ -14,8 +14,8 @@ MODULE_CASES = ['lin_vec', 'quad_vec', 'two_io', 'two_io:x2_y2', 'two_io:x1_y1',
 SCALAR_CASES = ['scal:float', 'scal:int', 'scal:np', 'scal:0d', 'scal:zero', 'scal:0d_zero', 'scal:neg', 'scal_cplx:py', 'scal_cplx:np', 'scal_cplx:0d', 'scal_cplx:py_npsens']
 NETWORK_CASES = ['chain:a_d', 'chain:b_c', 'chain:b_d', 'chain:a_c', 'chain:a_cd', 'chain:c_d', 'chain:default', 'chain:c_b', 'chain:c_bd', 'chain:asl_dsl', 'chain:a_db',
                  'diamond:x_c', 'diamond:a_c', 'diamond:b_c', 'diamond:ab_c', 'pre_module:x_y', 'pre_module:xp_y', 'pre_module:p_y', 'chain_cplx:x_c', 'chain_cplx:b_c']
-SLICE_CASES = ['slice:in', 'slice:out', 'slice:both', 'slice:fancy', 'slice:two']
-NO_RANDOM = {'chain:a_cd', 'chain:default', 'chain:a_db', 'chain:asl_dsl', 'chain:c_bd', 'slice:out', 'slice:both', 'slice:fancy'}   # seeded output is sliced or also fed from downstream
+SLICE_CASES = ['slice:in', 'slice:out', 'slice:both', 'slice:fancy', 'slice:two', 'slice_cplx:in', 'slice_cplx:fancy', 'slice_cplx:out']
+NO_RANDOM = {'chain:a_cd', 'chain:default', 'chain:a_db', 'chain:asl_dsl', 'chain:c_bd', 'slice:out', 'slice:both', 'slice:fancy', 'slice_cplx:out'}   # seeded output is sliced or also fed from downstream
 
 # deliberately wrong sensitivities: case -> [(kind, module index, input index)]
 WRONG = {
@@ -25,7 +25,7 @@ WRONG = {
     'scal:float': [('neg', 0, 0), ('scale', 0, 0)], 'scal:0d': [('scale', 0, 0)], 'scal_cplx:np': [('conj', 0, 0)], 'scal_cplx:0d': [('conj', 0, 0), ('neg', 0, 0)],
     'chain:a_d': [('roll', 1, 0), ('neg', 0, 0), ('scale', 2, 0)], 'chain:b_c': [('neg', 1, 0)], 'chain:a_cd': [('neg', 2, 0), ('roll', 0, 0)], 'chain:default': [('scale', 1, 0)],
     'diamond:x_c': [('neg', 1, 0), ('scale', 2, 1), ('none', 0, 0)], 'diamond:a_c': [('neg', 2, 0)], 'pre_module:x_y': [('neg', 1, 0)], 'pre_module:xp_y': [('scale', 0, 0), ('neg', 1, 1)],
-    'chain_cplx:x_c': [('conj', 1, 0), ('neg', 0, 0)], 'slice:in': [('neg', 0, 0), ('roll', 0, 0)], 'slice:both': [('roll', 0, 0)], 'slice:fancy': [('neg', 0, 0)],
+    'chain_cplx:x_c': [('conj', 1, 0), ('neg', 0, 0)], 'slice:in': [('neg', 0, 0), ('roll', 0, 0)], 'slice:both': [('roll', 0, 0)], 'slice:fancy': [('neg', 0, 0)], 'slice_cplx:in': [('conj', 0, 0)],
 }
 
 
@@ -35,6 +35,8 @@ def region(case_id, keep_zero):
         return 'C19-scalar-zero-perturbed'
     if case_id == 'scal_cplx:py':
         return 'C19-python-complex-scalar'
+    if case_id == 'slice_cplx:fancy':
+        return 'C19-complex-intarray-slice'
     if case_id in ('chain:c_b', 'chain:c_bd'):
         return 'C19-upstream-output-sens-left'
     return None
@@ -107,7 +109,7 @@ def networks(r, tier, seed):
             run(r, cid, **kw)
 
 
-@bound('SignalSlice arguments: fromsig x[1:3], tosig y[0:2], both (stepped slice), integer-array slices x[[3,0]] / y[[2,0,1]], two disjoint slices of one signal; same option grid')
+@bound('SignalSlice arguments: fromsig x[1:3], tosig y[0:2], both (stepped slice), integer-array slices x[[3,0]] / y[[2,0,1]], two disjoint slices of one signal; complex signal with x[1:4], x[[3,0]], y[0:2]; same option grid')
 def slices(r, tier, seed):
     for k, cid in enumerate(SLICE_CASES):
         for kw in options(tier, k + seed + 2, cid not in NO_RANDOM):
@@ -115,7 +117,7 @@ def slices(r, tier, seed):
 
 
 @bound('the same fixtures with a deliberately wrong sensitivity in one module (sign, one entry scaled by 1.25, entries rolled by one index, complex conjugate, no sensitivity returned): '
-       '47 (case, defect) pairs x relative_dx x seeds {use_df, ones} x verbose, dx = 2^-20; the non-matching pairs must be exactly the entries where the wrong and the true sensitivity differ')
+       '48 (case, defect) pairs x relative_dx x seeds {use_df, ones} x verbose, dx = 2^-20; the non-matching pairs must be exactly the entries where the wrong and the true sensitivity differ')
 def modules_wrong(r, tier, seed):
     k = seed
     for cid, lst in WRONG.items():
